@@ -185,9 +185,10 @@ def interpret(unit, g, raw, off, path):
     # expect-fail functions (canaries) must fail; their failures are not reported
     if g.expect_fail:
         failed_fns = {f['function'] for f in res['failures']}
-        for c in g.expect_fail:
-            if c not in failed_fns:
-                res['expect_fail_ok'] = False
+        if not res['tool_errors']:
+            for c in g.expect_fail:
+                if c not in failed_fns:
+                    res['expect_fail_ok'] = False
         res['failures'] = [f for f in res['failures'] if f['function'] not in g.expect_fail]
     if raw['returncode'] != 0 and n_verif_err == 0 and not res['tool_errors']:
         res['tool_errors'].append('verus exited with %s and no diagnostics: %s' % (raw['returncode'], raw['stderr'][-1500:]))
